@@ -2539,6 +2539,18 @@ static void Produce_Code(void) {
                         ListLine, OneStruct->IsUnion ? "(UNION)" : "(STRUCT)",
                         STRINGSIZE);
             } else {
+                /* many target-specific data statements lay down up to eight bytes
+                   per character of a string argument without checking the size of
+                   the code buffer: make sure it can hold whatever this line spells
+                   out literally (repetitions enlarge it on their own) */
+
+                size_t LineLen = strlen(OneLine.p_str);
+
+                if (LineLen * 8 + 64 > MaxCodeLen) {
+                    (void)SetMaxCodeLen(
+                            (LineLen * 8 + 64 > MaxCodeLen_Max) ? MaxCodeLen_Max
+                                                                 : LineLen * 8 + 64);
+                }
                 AttrPartOpSize = eSymbolSizeUnknown;
                 if (DecodeAttrPart ? DecodeAttrPart() : True) {
                     if (!CodeGlobalPseudo()) {
